@@ -121,6 +121,13 @@ func UnpackRule(rule []string) (map[string]string, error) {
 
 		}
 
+		// The artifacts of the destination step are either its materials or
+		// its products
+		if dstType != "materials" && dstType != "products" {
+			return nil,
+				fmt.Errorf("%s Got:\n\t %s", errorMsg, rule)
+		}
+
 		return map[string]string{
 			"type":      ruleLower[0],
 			"pattern":   rule[1],
